@@ -142,7 +142,8 @@ H_FRAME = Harness(
         # quick: single messages and a two-message stream; cut options {all, 1, 2} for the first 4 reads
         "quick": {"ranges": {"mset": (0, 2), "c0": (0, 2), "c1": (0, 2), "c2": (0, 2), "c3": (0, 2)}, "fixed": {"c4": 0, "c5": 0},
                   "partition": ["mset", "t"], "filter": _filter, "timeout": 200, "twin_fixed": {"mset": 1, "t": 10}},
-        "thorough": {"partition": ["mset", "t", "rst"], "filter": _filter, "timeout": 1500, "twin_fixed": {"mset": 1, "t": 10, "rst": 0}},
+        "thorough": {"fixed": {"c5": 0}, "ranges": {"c4": (0, 1)}, "partition": ["mset", "t", "rst"], "filter": _filter, "timeout": 1500,
+                     "twin_fixed": {"mset": 1, "t": 10, "rst": 0}},
     },
     functions=_FUNCS,
 )
